@@ -1013,3 +1013,38 @@ func init() {
 	registry["C11"].Meta.Rules["C11.17"] = registry["C06"].Meta.Rules["C06.10"] + " (shared with C06.10: the message the library's own version 0 root header ends with is such a record)"
 	registry["C11"].Rules = append(registry["C11"].Rules, func(c *Ctx, r *Result) { exactFitRule(c, r, "C11.17", 2) })
 }
+
+// ---- a length test is not one byte stricter than the access it guards (C16.10 / C06.17) ----
+func strictFitEverywhereRule(c *Ctx, r *Result, rule string, sel func(*ssa.Function) bool, floor int) {
+	n, bad := 0, 0
+	for _, fn := range c.LibFuncs() {
+		if fn.Blocks == nil || !sel(fn) {
+			continue
+		}
+		n++
+		for _, f := range c.strictFitGuardsGeneral(fn) {
+			// fixed-size records only: the bound is a constant (len(msg.Data) > 4 before msg.Data[0:4]); a bound that is a cursor
+			// also guards the element read at the cursor and is a different idiom
+			var k int64
+			if _, err := fmt.Sscanf(f.E, "+%d", &k); err != nil || fmt.Sprintf("+%d", k) != f.E {
+				continue
+			}
+			bad++
+			r.Viol(rule, fmt.Sprintf("%s#strict-fit-test-%d", c.Name(fn), bad), f.Pos, "the test admits only buffers longer than "+f.E+" bytes while the accesses it guards end exactly at "+f.E+": the case in which the data fills the buffer to its last byte is refused or skipped")
+		}
+	}
+	if bad == 0 {
+		r.Hold(rule, "module#length-tests-accept-the-exact-fit", "", fmt.Sprintf("%d functions examined; no strict length test guards accesses that end exactly at its bound", n))
+	}
+	if n < floor {
+		r.Shortfall(c, rule, fmt.Sprintf("%s: only %d functions examined", rule, n))
+	}
+}
+
+func init() {
+	txt := "a length test is not one byte stricter than the access it guards: no edge that establishes len(X) > k for a constant k (in any spelling) guards only accesses X[..:k] that end exactly at k - the case in which the data fills the buffer to its last byte would be refused or passed over (a 4-byte reference-count message tested with len > 4 is never updated: the rollback of a rejected hard link leaves the count at 2)"
+	registry["C16"].Meta.Rules["C16.10"] = txt
+	registry["C16"].Rules = append(registry["C16"].Rules, func(c *Ctx, r *Result) {
+		strictFitEverywhereRule(c, r, "C16.10", func(f *ssa.Function) bool { return true }, 100)
+	})
+}
